@@ -1,6 +1,54 @@
 """Per-property run plans for ./check.  A run = one engine under one build variant, sharded over worker processes."""
 
 EXTERNAL = {}
+POST = {}
+import os, sys, json, glob, subprocess
+from concurrent.futures import ThreadPoolExecutor
+VROOT = os.path.dirname(os.path.dirname(os.path.abspath(__file__)))
+
+
+def _empty():
+    return {"evaluations": 0, "hashes": set(), "counters": {}, "samples": [], "viols": [], "viol_per_sig": {}, "incon": []}
+
+
+def post_c12(run, scratch, seed):
+    """python judge over the case dumps of the c12 workers"""
+    out = _empty()
+    files = sorted(glob.glob(os.path.join(scratch, "c12-cases-*.jsonl")))
+    if not files:
+        out["incon"].append("c12: no case dumps found for the python judge")
+        return out
+    chunks = [files[i::16] for i in range(16) if files[i::16]]
+
+    def one(chunk):
+        p = subprocess.run([sys.executable, os.path.join(VROOT, "oracle", "jwt_judge.py")] + chunk, capture_output=True, text=True)
+        if p.returncode != 0:
+            return {"error": p.stderr[-500:]}
+        return json.loads(p.stdout)
+    with ThreadPoolExecutor(max_workers=16) as ex:
+        results = list(ex.map(one, chunks))
+    judged = 0
+    for r in results:
+        if "error" in r:
+            out["incon"].append("python judge failed: " + r["error"])
+            continue
+        judged += r["evaluations"]
+        for k, v in r["counters"].items():
+            out["counters"][k] = out["counters"].get(k, 0) + v
+        for k, v in r["viol_per_sig"].items():
+            out["viol_per_sig"][k] = out["viol_per_sig"].get(k, 0) + v
+        for v in r["violations"]:
+            v = dict(v)
+            v["run"] = {"engine": run["engine"], "variant": run["variant"], "features": run.get("features", []), "flags": {k: x for k, x in run.get("flags", {}).items() if k != "dump"}, "budget": run["budget"],
+                        "case": v["case"].get("case_index"), "shard": 0, "nshards": 1, "seed": seed}
+            out["viols"].append(v)
+    out["counters"]["cases_judged_by_python"] = judged
+    for f in files:
+        os.remove(f)
+    return out
+
+
+POST["c12"] = post_c12
 
 
 def R(engine, variant, budget, shards=16, flags=None, features=None, **kw):
@@ -109,4 +157,51 @@ META["C03"] = dict(
                 "framing per status/method, and for written <= reserved bytes (assertion inside push_unchecked! and declared-size accessor)."),
     level_note="Trusts the response parser and the 20-line map model. Stream bodies are C17's. Histories are sampled, not enumerated.",
     design_ref="DESIGN.md §5 C03",
+)
+
+
+PLANS["C12"] = dict(
+    level="exploration",
+    rule=("per case one configuration (secret: empty / 1 byte / 64 / 200 bytes / Unicode; HS256/384/512) and ~200-2000 Authorization values: tokens issued by JWT::issue with exp/nbf/iat claims "
+          "at now-1000..now+100000 (integer, fractional, negative, non-numeric), every 16th case EVERY single-character substitution/deletion/insertion of an issued token (else 15 positions), tokens "
+          "re-signed with another secret / a prefix of the secret / another algorithm, algorithm-confusion and header-mismatch variants, alg none/None/missing/lower-case/non-string with and without "
+          "signature, typ/cty/kid/whitespace header variants, 1/2/4/5 parts, empty parts, signature prefixes/extension/non-canonical trailing bits/padding, other schemes, no header, OPTIONS. "
+          "Every case is driven through the real fang in front of a handler that records the payload it saw; a Python judge (hmac, hashlib, base64, json) decides accept/reject/either per case. "
+          "distinct_nontrivial = distinct (algorithm, mutation kind) pairs."),
+    quick=[R("c12", "rel", 1_600, flags={"dump": "@SCRATCH"}, post="c12")],
+    thorough=[R("c12", "rel", 24_000, flags={"dump": "@SCRATCH"}, post="c12"), R("c12", "asan", 2_000), R("c12", "dbg", 2_000)],
+    floors={"quick": {"evaluations": 300_000, "distinct": 100, "accepted": 5_000, "cases_judged_by_python": 300_000, "kind:substitution": 50_000, "kind:alg-confusion": 1_000, "kind:signature-prefix": 5_000},
+            "thorough": {"evaluations": 4_000_000, "distinct": 100, "cases_judged_by_python": 3_000_000}},
+    assumptions=["the Python judge is the oracle; the worker's own judge (sha2/hmac crates) must not contradict it on any case", "time claims are generated >= 10 s away from the clock reading; "
+                 "cases for which the clock readings before and after the request give different verdicts count as 'either'",
+                 "correctly signed tokens with unusual header fields (typ/cty not JWT), non-numeric claims or a non-object payload are 'either': the statement is silent"],
+)
+META["C12"] = dict(
+    engine="vh c12 + oracle/jwt_judge.py",
+    technique="runtime monitoring: recorded event log of the real fang's decisions (handler ran / payload seen / status) judged offline by an independent Python HMAC/base64url/JSON reference",
+    level_text=("Each token is presented to the real JWT fang in a real application; whether the identity-echoing handler ran and what it saw is logged with the configuration and clock readings and "
+                "judged by Python code that shares nothing with ohkami. Single-character mutations of issued tokens are exhaustive for a sample of tokens."),
+    level_note="Trusts Python's hmac/hashlib/base64/json and the judge's reading of the statement (documented in oracle/jwt_judge.py). Token space is sampled.",
+    design_ref="DESIGN.md §5 C12",
+)
+
+PLANS["C13"] = dict(
+    level="exploration",
+    rule=("per case a list of 1-4 configured pairs (Unicode, colons inside passwords, empty parts, pairs that extend each other or share a user), single and array form of the fang, and ~30 "
+          "Authorization values per pair: the correct one, scheme case/spacing variants, other schemes, suffix junk, unpadded / url-alphabet / non-canonical base64, password and user extended or "
+          "truncated, swapped, no colon, extra colon part, single-character substitutions, user of one pair with password of another, payloads that are not UTF-8 after decoding, invalid base64, "
+          "raw high bytes, missing header. Oracle: handler runs iff the value is exactly 'Basic ' + base64(user:password) of a configured pair (independent base64); otherwise 401 + Basic challenge. "
+          "distinct_nontrivial = distinct (form, pair-list shape, header class)."),
+    quick=[R("c13", "rel", 6_000), R("c13", "miri", 8, shards=8, flags={"small": 1})],
+    thorough=[R("c13", "rel", 200_000), R("c13", "asan", 20_000), R("c13", "dbg", 20_000), R("c13", "miri", 64, shards=16, flags={"small": 1})],
+    floors={"quick": {"evaluations": 300_000, "distinct": 2_000, "admitted": 10_000, "class:mixed-pairs": 3_000, "class:non-utf8-payload": 10_000},
+            "thorough": {"evaluations": 10_000_000, "distinct": 5_000}},
+    assumptions=["usernames contain no colon (RFC 7617); passwords may", "base64 reference written for the harness (httpref::b64_encode)"],
+)
+META["C13"] = dict(
+    engine="vh c13",
+    technique="runtime monitoring: iff-oracle over generated credential lists x Authorization values against an independent base64 reference, through the real fang in a real application",
+    level_text="Every header value is sent through the real parser, fang and handler; admission is read from a trace event written by the handler and compared with the exact-match rule.",
+    level_note="Trusts the harness's base64 encoder and the exact-match reading of the statement. Sampled credential and header space.",
+    design_ref="DESIGN.md §5 C13",
 )
